@@ -31,6 +31,10 @@ func (a RelayedAddress) AddTo(m *stun.Message) error {
 
 // GetFrom decodes XOR-PEER-ADDRESS from message.
 func (a *RelayedAddress) GetFrom(m *stun.Message) error {
+	if err := checkXORAddressSize(m, stun.AttrXORRelayedAddress); err != nil {
+		return err
+	}
+
 	return (*stun.XORMappedAddress)(a).GetFromAs(m, stun.AttrXORRelayedAddress)
 }
 
